@@ -13,6 +13,7 @@ pub mod c09;
 pub mod c10;
 pub mod c11;
 pub mod c12;
+pub mod c13;
 pub mod c14;
 pub mod c15;
 pub mod c16;
@@ -38,6 +39,7 @@ pub fn gen(prop: &str, tier: &str, seed: u64) -> Gen {
         "C08" => c08::gen(tier, seed),
         "C09" => c09::gen(tier, seed),
         "C12" => c12::gen(tier, seed),
+        "C13" => c13::gen(tier, seed),
         "C14" => c14::gen(tier, seed),
         "C15" => c15::gen(tier, seed),
         "C16" => c16::gen(tier, seed),
@@ -63,6 +65,7 @@ pub fn run(prop: &str, case: &Term) -> Term {
         "C08" => c08::run(case),
         "C09" => c09::run(case),
         "C12" => c12::run(case),
+        "C13" => c13::run(case),
         "C14" => c14::run(case),
         "C15" => c15::run(case),
         "C16" => c16::run(case),
